@@ -180,7 +180,7 @@ pub fn wide_duplicates_case(entries: &[(u8, u8)], ch: &[u8], p: u16, q: u16, new
 pub fn after_history_case(ops: &[super::c06::Op], rot: u16, mutsel: u16) -> Outcome {
 	let (rot, mutsel) = (&rot, &mutsel);
 
-	let universe = ["a", "b", "c"];
+	let universe = ["a", "\u{e000}", "\u{10000}", "c"];
 	let (obj, model) = match super::c06::run_history(ops, &universe, false) {
 		Ok(x) => x,
 		Err(m) => return Outcome::fail(format!("history: {m}")),
@@ -212,6 +212,64 @@ pub fn after_history_case(ops: &[super::c06::Op], rot: u16, mutsel: u16) -> Outc
 	let removal = ops.iter().any(|o| matches!(o, super::c06::Op::Remove(..) | super::c06::Op::RemoveAt(_) | super::c06::Op::RemoveUnique(_) | super::c06::Op::Insert(..) | super::c06::Op::InsertFront(..)));
 	Outcome::ok(removal && has_dup, vec![])
 			}
+
+/// G_shuffle_and_mutate on one case.
+pub fn shuffle_case(v: &RefValue, ch: &[u8], sel: u16, kind: u8) -> Outcome {
+	let (sel, kind) = (&sel, &kind);
+	let s = shuffle(v, &mut gen::Chooser::new(ch));
+	let m = super::c14::near_copy(&s, *sel, *kind);
+	let (a, b, c) = (v.to_value_route(*kind), s.to_value_route(kind.wrapping_add(*sel as u8)), m.to_value_route((*sel >> 8) as u8));
+	if normal_form(v) != normal_form(&s) {
+		return Outcome::fail("harness: shuffle changed the normal form".into());
+	}
+	if let Err(e) = pair_property(&a, &b, true, true) {
+		return Outcome::fail(format!("value vs shuffled copy: {e}"));
+	}
+	let exp = normal_form(v) == normal_form(&m);
+	if let Err(e) = pair_property(&a, &c, exp, true) {
+		return Outcome::fail(format!("value vs mutated shuffled copy: {e}"));
+	}
+	if let Err(e) = pair_property(&b, &c, exp, false) {
+		return Outcome::fail(format!("shuffled copy vs its mutation: {e}"));
+	}
+	// the same three values after in-place post-processing (canonicalization or sorting of every object):
+	// the expectation comes from the normal forms of what the accessors read back
+	let post = (*kind >> 2) % 3;
+	if post != 0 {
+		let (mut a, mut b, mut c) = (a, b, c);
+		for x in [&mut a, &mut b, &mut c] {
+			if post == 1 {
+				x.canonicalize()
+			} else {
+				sort_all(x)
+			}
+		}
+		let (ra, rb, rc) = (RefValue::from_value(&a), RefValue::from_value(&b), RefValue::from_value(&c));
+		let what = if post == 1 { "canonicalized" } else { "sorted" };
+		if let Err(e) = pair_property(&a, &b, normal_form(&ra) == normal_form(&rb), true) {
+			return Outcome::fail(format!("{what} value vs {what} shuffled copy: {e}"));
+		}
+		if let Err(e) = pair_property(&a, &c, normal_form(&ra) == normal_form(&rc), true) {
+			return Outcome::fail(format!("{what} value vs {what} mutated copy: {e}"));
+		}
+		if let Err(e) = pair_property(&v.to_value(), &b, normal_form(v) == normal_form(&rb), false) {
+			return Outcome::fail(format!("value vs {what} shuffled copy: {e}"));
+		}
+	}
+	let changed = *v != s;
+	Outcome::ok(changed, vec![["as_built", "canonicalized", "sorted"][post as usize], if changed { "shuffle_changed_order" } else { "shuffle_identity" }, if exp { "mutation_equal" } else { "mutation_differs" }])
+}
+
+fn sort_all(v: &mut Value) {
+	match v {
+		Value::Array(a) => a.iter_mut().for_each(sort_all),
+		Value::Object(o) => {
+			o.iter_mut().for_each(|e| sort_all(e.1));
+			o.sort()
+		}
+		_ => {}
+	}
+}
 
 pub fn run(ctx: &mut Ctx) {
 	if ctx.wants("X3_all_pairs_le3_entries") {
@@ -252,32 +310,13 @@ pub fn run(ctx: &mut Ctx) {
 	}
 	if ctx.wants("G_shuffle_and_mutate") {
 		let n = ctx.pick(60_000, 1_000_000);
-		let fam = Fam::new("G_shuffle_and_mutate", "proptest: random value, a copy with entries shuffled at every level (must be unordered-equal), and a single-leaf mutation of that copy (expected verdict from the reference normal form); non-trivial = the value contains an object with >= 2 entries and the shuffle changed it", false);
+		let fam = Fam::new("G_shuffle_and_mutate", "proptest: random value, a copy with entries shuffled at every level (must be unordered-equal), and a single-leaf mutation of that copy (expected verdict from the reference normal form), then in two cases out of three the same three values after canonicalize() resp. sort() of every object (expectation from the normal forms of the read-back trees); non-trivial = the value contains an object with >= 2 entries and the shuffle changed it", false);
 		let fam = run_proptest(
 			ctx,
 			fam,
 			n,
 			|| (gen::arb_doc_value(gen::ValueCfg::MEDIUM), proptest::collection::vec(any::<u8>(), 0..256), any::<u16>(), any::<u8>()),
-			|(v, ch, sel, kind)| {
-				let s = shuffle(v, &mut gen::Chooser::new(ch));
-				let m = super::c14::near_copy(&s, *sel, *kind);
-				let (a, b, c) = (v.to_value_route(*kind), s.to_value_route(kind.wrapping_add(*sel as u8)), m.to_value_route((*sel >> 8) as u8));
-				if normal_form(v) != normal_form(&s) {
-					return Outcome::fail("harness: shuffle changed the normal form".into());
-				}
-				if let Err(e) = pair_property(&a, &b, true, true) {
-					return Outcome::fail(format!("value vs shuffled copy: {e}"));
-				}
-				let exp = normal_form(v) == normal_form(&m);
-				if let Err(e) = pair_property(&a, &c, exp, true) {
-					return Outcome::fail(format!("value vs mutated shuffled copy: {e}"));
-				}
-				if let Err(e) = pair_property(&b, &c, exp, false) {
-					return Outcome::fail(format!("shuffled copy vs its mutation: {e}"));
-				}
-				let changed = *v != s;
-				Outcome::ok(changed, vec![if changed { "shuffle_changed_order" } else { "shuffle_identity" }, if exp { "mutation_equal" } else { "mutation_differs" }])
-			},
+			|(v, ch, sel, kind)| shuffle_case(v, ch, *sel, *kind),
 			|(v, ch, sel, kind)| json!({"value": v.encode(), "choices": ch, "sel": sel, "kind": kind}),
 		);
 		ctx.add(fam);
@@ -299,8 +338,8 @@ pub fn run(ctx: &mut Ctx) {
 	// objects reached through operation histories (removals, collapses, sorts), not only built in one go
 	if ctx.wants("H_after_histories") {
 		let n = ctx.pick(20_000, 300_000);
-		let keys: Vec<String> = vec!["a".into(), "b".into(), "c".into()];
-		let fam = Fam::new("H_after_histories", "proptest: an object produced by a random history of C06 operations over 3 keys (pushes, front insertions, removals by key/position/iterator, insert collapses, sorts, clones) compared with a rotated rebuild of its final entry list (equal) and with a one-value mutation of that rebuild (expectation from the normal form), both argument orders; non-trivial = the history contains a removal and the final object has a duplicated key", false);
+		let keys: Vec<String> = vec!["a".into(), "\u{e000}".into(), "\u{10000}".into()];
+		let fam = Fam::new("H_after_histories", "proptest: an object produced by a random history of C06 operations over 3 keys, one of them above U+FFFF and one in U+E000..U+FFFF (pushes, front insertions, removals by key/position/iterator, insert collapses, sorts, canonicalizations, clones) compared with a rotated rebuild of its final entry list (equal) and with a one-value mutation of that rebuild (expectation from the normal form), both argument orders; non-trivial = the history contains a removal and the final object has a duplicated key", false);
 		let ks = keys.clone();
 		let fam = run_proptest(
 			ctx,
@@ -334,10 +373,10 @@ pub fn replay(family: &str, case: &J) -> Result<(), String> {
 	if family == "G_shuffle_and_mutate" {
 		let v = RefValue::decode(&case["value"]);
 		let ch: Vec<u8> = case["choices"].as_array().unwrap().iter().map(|x| x.as_u64().unwrap() as u8).collect();
-		let s = shuffle(&v, &mut gen::Chooser::new(&ch));
-		let m = super::c14::near_copy(&s, case["sel"].as_u64().unwrap() as u16, case["kind"].as_u64().unwrap() as u8);
-		pair_property(&v.to_value(), &s.to_value_push(), true, true)?;
-		return pair_property(&v.to_value(), &m.to_value(), normal_form(&v) == normal_form(&m), true);
+		return match shuffle_case(&v, &ch, case["sel"].as_u64().unwrap() as u16, case["kind"].as_u64().unwrap() as u8).verdict {
+			Ok(()) => Ok(()),
+			Err((m, _)) => Err(m),
+		};
 	}
 	let a = RefValue::decode(&case["a"]);
 	let b = RefValue::decode(&case["b"]);
